@@ -239,7 +239,7 @@ func racePass(work, id, tier string, seed int) (int, map[string]string, string) 
 	}
 	if strings.Contains(text, "RACEPASS-FUNCTIONAL-ERROR") {
 		i := strings.Index(text, "RACEPASS-FUNCTIONAL-ERROR")
-		return iters, nil, strings.SplitN(text[i:], "\n", 2)[0]
+		return iters, nil, tail(text[i:], 12000)
 	}
 	if err != nil && iters == 0 {
 		if i := strings.Index(text, "panic: "); i >= 0 && strings.Contains(text, "github.com/tsuna/gohbase") {
